@@ -589,14 +589,20 @@ func sendICE(c *webClient, id string, candidate *webrtc.ICECandidate) error {
 }
 
 func gotOffer(c *webClient, id, label string, sdp string, replace string) error {
-	up, _, err := addUpConn(c, id, label, sdp)
+	up, isnew, err := addUpConn(c, id, label, sdp)
 	if err != nil {
 		return err
 	}
 
 	if replace != "" {
-		up.replace = replace
-		delUpConn(c, replace, c.Id(), false)
+		if isnew {
+			up.replace = replace
+			delUpConn(c, replace, c.Id(), false)
+		} else {
+			// renegotiation: no push of this connection is
+			// scheduled, so announce the close right away
+			delUpConn(c, replace, c.Id(), true)
+		}
 	}
 
 	err = up.pc.SetRemoteDescription(webrtc.SessionDescription{
